@@ -27,8 +27,10 @@ REPO = os.environ.get("VERIF_REPO", "/repo")
 COQ = os.path.join(ROOT, "coq")
 BUILD = os.path.join(ROOT, "build")
 TARGET = os.path.join(BUILD, "target")
-EVID = os.path.join(ROOT, "evidence")
-REPLAY = os.path.join(ROOT, "replay")
+_ALT = os.path.realpath(REPO) != "/repo"
+# runs against a private scratch worktree (mutation tests) never touch the committed evidence
+EVID = os.path.join(BUILD, "alt-evidence") if _ALT else os.path.join(ROOT, "evidence")
+REPLAY = os.path.join(BUILD, "alt-replay") if _ALT else os.path.join(ROOT, "replay")
 HOOK_CFG = "aranya_core_verif"
 
 ALLOWED_AXIOMS = {
